@@ -16,6 +16,7 @@ import (
 	"github.com/ipld/go-ipld-prime/multicodec"
 	basicnode "github.com/ipld/go-ipld-prime/node/basic"
 	"github.com/ipld/go-ipld-prime/traversal/selector/builder"
+	"github.com/ipni/go-libipni/announce"
 	"github.com/ipni/go-libipni/dagsync/ipnisync"
 	headschema "github.com/ipni/go-libipni/dagsync/ipnisync/head"
 	"github.com/libp2p/go-libp2p/core/crypto"
@@ -323,4 +324,76 @@ func VerifC01_FullStack() {
 		verif_Assert(v.latest() == latestBefore, "a sync of an explicit head leaves the latest-synced value alone")
 		verif_Assert(len(evs) == 0, "and emits no notification")
 	}
+}
+
+// C01, whole stack, announce-triggered: the announcement arrives through the
+// real receiver and is handled by the real asyncSyncAdChain over the real sync
+// client and traversal: the segment from the announced head back to the
+// latest-synced advertisement (or, on a first sync, as deep as the first-sync
+// depth allows) is reported once, newest to oldest; latest-synced becomes the
+// announced head; one notification carries head, publisher and count.
+func VerifC01_FullStackAnnounced() {
+	const n = 3
+	local := verif_Choose("localMask", 0, 1<<n-1)
+	seg := verif_Choose("segDepthLimit", 0, 2)
+	firstDepth := verif_Choose("firstSyncDepth", 0, 2) // 0 = unlimited
+	latestPos := verif_Choose("latestSyncPos", 1, n)   // n = none (first sync)
+	segLimit := int64(-1)
+	if seg > 0 {
+		segLimit = int64(seg)
+	}
+	w := newFullStack(n, local, segLimit, 16)
+	defer w.restore()
+	chain, v := w.chain, w.v
+	v.s.firstSyncDepth = int64(firstDepth)
+	rcv, rerr := announce.NewReceiver(nil, "")
+	verif_Assume(rerr == nil)
+	v.s.receiver = rcv
+	if latestPos < n {
+		verif_Assume(v.s.SetLatestSync(v.peer.ID, chain[latestPos]) == nil)
+	}
+	verif_Assume(rcv.Direct(context.Background(), chain[0], w.pinfo) == nil)
+	amsg, nerr := rcv.Next(context.Background())
+	verif_Assume(nerr == nil)
+	hnd := v.s.getOrCreateHandler(v.peer.ID)
+	hnd.pendingMsg.Store(&amsg)
+	hnd.asyncSyncAdChain(context.Background())
+	verif_Reach("handled")
+
+	var want []int
+	for i := 0; i < n; i++ {
+		if i == latestPos {
+			break
+		}
+		if latestPos == n && firstDepth > 0 && len(want) >= firstDepth {
+			break
+		}
+		want = append(want, i)
+	}
+	evs := v.drain()
+	verif_Assert(len(evs) == 1 && evs[0].Err == nil && evs[0].Cid == chain[0] && evs[0].PeerID == v.peer.ID, "one success notification names the announced head and the publisher")
+	if len(evs) == 1 {
+		verif_Assert(evs[0].Count == len(want), "the notification carries the block count of the sync")
+	}
+	verif_Assert(v.latest() == chain[0], "latest-synced becomes the announced head")
+	verif_Assert(len(v.log) == len(want), "the hook sees exactly the blocks between the announced head and the latest-synced advertisement (first sync: within the first-sync depth)")
+	for k, i := range want {
+		if k < len(v.log) {
+			verif_Assert(v.log[k] == chain[i], "hook calls are newest to oldest")
+		}
+	}
+	for i := 0; i < n; i++ {
+		inSeg := false
+		for _, x := range want {
+			if x == i {
+				inSeg = true
+			}
+		}
+		if local&(1<<i) != 0 || !inSeg {
+			verif_Assert(w.requested[i] == 0, "local blocks and blocks outside the segment are not requested")
+		} else {
+			verif_Assert(w.requested[i] == 1, "each missing block of the segment is requested once")
+		}
+	}
+	verif_Assert(w.headQueries == 0, "an announced head is not queried")
 }
